@@ -685,6 +685,17 @@ func (g *gctx) genEnum() *Def {
 		if g.o.Annotations && g.chance(1, 8, "itemlabel") {
 			it.Annots = map[string]string{"go.label": fmt.Sprintf("lbl-%d", i)}
 		}
+		if g.o.Hostile && g.o.Annotations && len(d.Items) > 0 && g.chance(1, 3, "itemlabel_clash") {
+			// a label that is the name (= default label) of an earlier item; with equal values the
+			// two are aliases of one constant, which is when a generator is tempted to look at one only
+			prev := d.Items[g.intn(0, len(d.Items)-1, "itemlabel_of")]
+			it.Annots = map[string]string{"go.label": prev.Name}
+			if g.chance(1, 2, "itemlabel_alias") {
+				// ... and the value of any earlier item, the same or another one
+				other := d.Items[g.intn(0, len(d.Items)-1, "itemlabel_alias_of")]
+				it.Value, it.Explicit, it.Spell = other.Value, true, ""
+			}
+		}
 		d.Items = append(d.Items, it)
 	}
 	d.Annots = g.foreignAnnots(d.Annots, 4)
@@ -707,7 +718,11 @@ func (g *gctx) genType(depth int, allowStruct bool) *Type {
 		case 1:
 			t := &Type{K: TSet, Elem: g.genType(depth-1, allowStruct)}
 			if g.o.Annotations && g.chance(1, 4, "slice") {
+				// only the exact value "slice" changes the representation; any other value leaves a map
 				t.Annots = map[string]string{"go.type": "slice"}
+				if g.chance(1, 3, "slice_other") {
+					t.Annots["go.type"] = pickStr(g, []string{"map", "Slice", "SLICE", "", "list", "slice "}, "slice_val")
+				}
 			}
 			return g.typeAnnots(t, 4)
 		default:
